@@ -67,7 +67,12 @@ def vembed(v): return [z.real for z in v] + [z.imag for z in v]
 # ---------------------------------------------------------------------------------------------- case generation
 def gen_cases(ctx, rounds, maxdim):
     r = ctx.rng; cases = []
-    def add(kind, p, line, meta): meta.update({'kind': kind, 'p': p}); cases.append((line, meta))
+    def add(kind, p, line, meta):
+        # every case goes through one of the public entry points: 0 constructor, 1 default-constructed then factor(), 2 re-factor()
+        # (with rcond < 0 the overloads without an rcond argument); Eigen has only its constructor (Eigen::factor is declared but not in the library)
+        e = meta.get('entry', r.choice((0, 1, 2)))
+        t = line.split(' ', 2); line = '%s %s %d %s' % (t[0], t[1], e, t[2])
+        meta.update({'kind': kind, 'p': p, 'entry': e}); cases.append((line, meta))
     def vec(n, cx): return [complex(r.uniform(-1, 1), r.uniform(-1, 1)) if cx else r.uniform(-1, 1) for _ in range(n)]
     for it in range(rounds):
         for p in ('d', 'f', 'z', 'c'):
@@ -109,6 +114,28 @@ def gen_cases(ctx, rounds, maxdim):
             G = [[(complex(r.uniform(-1, 1), r.uniform(-1, 1)) if cx else r.uniform(-1, 1)) for _ in range(q)] for _ in range(q)]
             Gf = roundp(flat(G, cx), p)
             add('EIG', p, 'EIG %s %d %s' % (p, q, H(Gf)), {'n': q, 'A': Gf, 'sym': False})
+        # singular-value ratios straddling the DOCUMENTED DEFAULT tolerance max(m,n)*eps^(7/8): log-uniform over six decades, both sides,
+        # through every entry point without an rcond argument.  Expected numerical rank: k when sigma_k/sigma_1 is above the tolerance, k-1 when
+        # below.  Ratios within a factor 4 of the tolerance are not generated: FactorQTZ decides by LAPACK's incremental condition ESTIMATE,
+        # measured to switch between 0.6 and 1.5 times the tolerance (FactorSVD between 0.92 and 1.08).
+        for p in ('d', 'f', 'z'):
+            cx = is_cx(p); md = maxdim if not cx else min(maxdim, 8)
+            m = r.randint(2, md); n = r.randint(2, md); k = min(m, n)
+            eps = 2.0 ** -52 if base(p) == 'd' else 2.0 ** -23
+            thr = max(m, n) * eps ** 0.875
+            lo, hi = (1e-16, 1e-10) if base(p) == 'd' else (1e-8, 1e-3)
+            while True:
+                ratio = math.exp(r.uniform(math.log(lo), math.log(hi)))
+                if not (thr / 4 < ratio < thr * 4): break
+            sig = sorted([r.uniform(0.5, 2.0) for _ in range(k - 1)], reverse=True); sig.append(sig[0] * ratio)
+            rank = k if ratio > thr else k - 1
+            A = with_spectrum(r, m, n, sig, cx); b = vec(m, cx)
+            Af = roundp(flat(A, cx), p); bf = roundp(vflat(b, cx), p)
+            for e in (0, 1, 2):
+                meta = {'m': m, 'n': n, 'rank': rank, 'rcond': -1.0, 'A': Af, 'b': bf, 'sig': sig[:rank], 'entry': e,
+                        'straddle': ratio / thr, 'dropped': (sig[-1] if rank < k else 0.0)}
+                add('SVD', p, 'SVD %s %d %d %s %s %s' % (p, m, n, hexf(-1.0), H(Af), H(bf)), dict(meta))
+                add('QTZ', p, 'QTZ %s %d %d %s %s %s' % (p, m, n, hexf(-1.0), H(Af), H(bf)), dict(meta))
         if it % 10 == 0:
             for p in ('d', 'f'):        # the zero matrix: rank 0, minimum-norm solution 0
                 m = r.randint(1, 4); n = r.randint(1, 4); Z = [0.0] * (m * n); b = [r.uniform(-1, 1) for _ in range(m)]
@@ -172,7 +199,7 @@ class Certs:
 def build_sides(ctx):
     d = ctx.bdir('corr'); os.makedirs(d, exist_ok=True)
     ext = ('From Coq Require Import Extraction ExtrOcamlBasic.\nRequire Import Num C24_Model.\nExtraction Language OCaml.\n'
-           'Extraction "c24_x.ml" svd_rank orth_check orth_resid orth_resid\' recon_check recon_resid desc_check asc_check normal_check normal_resid '
+           'Extraction "c24_x.ml" svd_rank svd_rank_default orth_check orth_resid orth_resid\' recon_check recon_resid desc_check asc_check normal_check normal_resid '
            'nullorth_check nullorth_resid solve_check solve_resid inverse_check eig_check eig_resid sym_check pinv_solution diagm mat_maxabs maxabs vec_le mmul delta.\n')
     if not ctx.extract(ext, d):
         ctx.broken.append(('correspondence:C24', 'extraction of the model failed')); return None
@@ -181,7 +208,11 @@ def build_sides(ctx):
     if not ctx.ocaml(d, ['c24_x.mli', 'c24_x.ml', 'drv.ml'], 'drv'):
         ctx.broken.append(('correspondence:C24', 'OCaml driver build failed')); return None
     exe = os.path.join(d, 'probe')
-    if not ctx.cxx(os.path.join(VERIF, 'harness', 'C24_probe.cpp'), exe):
+    # VERIF_C24_EXTRA_SRC (seeded-change testing only): extra source files / flags compiled into the probe; a definition in the executable
+    # takes precedence over the one in libSimTKmath, so a changed copy of one LinearAlgebra .cpp can be tried without rebuilding the library
+    extra = tuple(x for x in os.environ.get('VERIF_C24_EXTRA_SRC', '').split(':') if x)
+    if extra: ctx.log('probe built with extra sources (seeded-change testing): %s' % (extra,))
+    if not ctx.cxx(os.path.join(VERIF, 'harness', 'C24_probe.cpp'), exe, flags=extra):
         ctx.broken.append(('correspondence:C24', 'C++ probe does not compile against the current source')); return None
     return exe, os.path.join(d, 'drv')
 
@@ -205,8 +236,9 @@ def certificate(ctx, exe, drv, rounds, maxdim):
     def prob(ix, what, detail): problems.append((ix, what, detail))
     for ix, ((line, me), out) in enumerate(zip(cases, outs)):
         kind, p = me['kind'], me['p']; cx = is_cx(p); tol = TOL[p]; T = hexf(tol)
-        hist[kind + '/' + p] = hist.get(kind + '/' + p, 0) + 1
+        hk = '%s/%s/entry%d%s' % (kind, p, me['entry'], '/default-tolerance-straddle' if me.get('straddle') else ''); hist[hk] = hist.get(hk, 0) + 1
         st, head, secs = parse(out, cx)
+        strad = me.get('straddle'); kept_tiny = bool(strad) and strad > 1      # the tiny singular value is above the default tolerance: kept
         if st != 'OK':
             # (regression: before fix 4c685664 FactorQTZ::solve threw for every complex matrix -- trans='T' handed to ?unmqr/?unmrz)
             prob(ix, 'exception', out[:200]); continue
@@ -220,25 +252,34 @@ def certificate(ctx, exe, drv, rounds, maxdim):
             exact['rank_checks'] += 1
             if ranks != [rank] * 3: prob(ix, 'svd-rank', 'getRank fresh/after values/after solve = %s, prescribed rank %d' % (ranks, rank))
             rc = me['rcond']
-            if rc < 0:   # the default of the constructor: max(m,n) * NTraits<P>::getSignificant() = eps^(7/8)
+            if rc < 0:   # the documented default of the entry points without rcond: max(m,n) * NTraits<P>::getSignificant() = max(m,n) * eps^(7/8)
                 eps = 2.0 ** -52 if base(p) == 'd' else 2.0 ** -23
-                rc = max(m, n) * (f32(eps ** 0.875) if base(p) == 'f' else eps ** 0.875)
+                sigc = f32(eps ** 0.875) if base(p) == 'f' else eps ** 0.875
+                rc = max(m, n) * sigc
                 if base(p) == 'f': rc = f32(rc)
-            C.add('RANK %s %s %d %s' % (base(p), hexf(rc), k, H(s)), ix, 'rank-count', expect=ranks[1]); exact['rank_count_correspondence'] += 1
+                # the model's svd_rank_default (default tolerance and count rule, both extracted)
+                C.add('RANKD %s %s %d %d %d %s' % (base(p), hexf(sigc), m, n, k, H(s)), ix, 'rank-count', expect=ranks[1])
+            else:
+                C.add('RANK %s %s %d %s' % (base(p), hexf(rc), k, H(s)), ix, 'rank-count', expect=ranks[1])
+            exact['rank_count_correspondence'] += 1
+            xs = max([1.0] + [abs(v) for v in RV(x)]) if strad else 1.0
+            # straddle cases: a dropped singular value sigma_k leaves up to sigma_k*|b| in the normal equations of the full matrix; a kept tiny
+            # one makes x as large as 1/sigma_k, and the rounding residual grows with |x|
+            toln = tol * xs + 2 * me.get('dropped', 0.0) * sum(abs(v) for v in RV(b))
             C.add('DESC %d %s' % (k, H(s)), ix, 'desc')
             C.add('ORTH %d %s %s' % (dims(U)[0], T, H(R(U))), ix, 'orth-U', tol=tol)
             C.add('ORTH %d %s %s' % (dims(Vt)[0], T, H(R(Vt))), ix, 'orth-Vt', tol=tol)
             if not cx:
                 C.add('RECON %d %d %d %s %s %s %s %s' % (m, n, k, T, H(R(A)), H(R(U)), H(s), H(R(Vt))), ix, 'recon', tol=tol)
-                C.add('NULLORTH %d %d %s %s %s' % (n, rank, TX, H(R(Vt)), H(RV(x))), ix, 'svd-x-nullorth', tol=tolx)
-                if not me.get('zero'):
+                if not kept_tiny: C.add('NULLORTH %d %d %s %s %s' % (n, rank, TX, H(R(Vt)), H(RV(x))), ix, 'svd-x-nullorth', tol=tolx)
+                if not me.get('zero') and not kept_tiny:
                     C.add('PINV %d %d %d %s %s %s %s %s %s %s' % (m, n, k, hexf(rc * s[0]), TX, H(R(U)), H(s), H(R(Vt)), H(RV(b)), H(RV(x))), ix, 'pinv-vs-solve', tol=tolx)
             else:
                 S = [[complex(s[i] if i == j and i < k else 0.0, 0) for j in range(n)] for i in range(m)]
                 C.add('RECONS %d %d %s %s %s %s %s' % (2 * m, 2 * n, T, H(R(A)), H(R(U)), H(R(S)), H(R(Vt))), ix, 'recon', tol=tol)
             dm, dn = dims(A)
-            C.add('NORMAL %d %d %s %s %s %s' % (dm, dn, T, H(R(A)), H(RV(x)), H(RV(b))), ix, 'svd-x-normal', tol=tol)
-            if len(secs) > 4 and m == n and rank == n:
+            C.add('NORMAL %d %d %s %s %s %s' % (dm, dn, hexf(toln), H(R(A)), H(RV(x)), H(RV(b))), ix, 'svd-x-normal', tol=toln)
+            if len(secs) > 4 and m == n and rank == n and not kept_tiny:
                 inv = sec_mat(secs[4], cx); C.add('INV %d %s %s %s' % (dm, hexf(10 * tol), H(R(A)), H(R(inv))), ix, 'svd-inverse', tol=10 * tol)
             svd_of[(p, tuple(me['A']))] = (Vt, s)
         elif kind == 'QTZ':
@@ -254,20 +295,22 @@ def certificate(ctx, exe, drv, rounds, maxdim):
                 if len(x) != n or any(v != 0 for v in got0): prob(ix, 'qtz-zero-matrix', 'FactorQTZ::solve on the %dx%d zero matrix returned x = %s, X = %s (expected 0)' % (m, n, RV(x), X))
                 continue
             dm, dn = dims(A)
-            C.add('NORMAL %d %d %s %s %s %s' % (dm, dn, T, H(R(A)), H(RV(x)), H(RV(b))), ix, 'qtz-x-normal', tol=tol)
+            xs = max([1.0] + [abs(v) for v in RV(x)]) if strad else 1.0
+            toln = tol * xs + 2 * me.get('dropped', 0.0) * sum(abs(v) for v in RV(b))          # see the SVD case
+            C.add('NORMAL %d %d %s %s %s %s' % (dm, dn, hexf(toln), H(R(A)), H(RV(x)), H(RV(b))), ix, 'qtz-x-normal', tol=toln)
             sv = svd_of.get((p, tuple(me['A'])))
             tolx = tol * max([1.0] + [1.0 / v for v in me['sig']])
-            if sv and not cx: C.add('NULLORTH %d %d %s %s %s' % (n, rank, hexf(tolx), H(R(sv[0])), H(RV(x))), ix, 'qtz-x-nullorth', tol=tolx)
+            if sv and not cx and not kept_tiny: C.add('NULLORTH %d %d %s %s %s' % (n, rank, hexf(tolx), H(R(sv[0])), H(RV(x))), ix, 'qtz-x-nullorth', tol=tolx)
             # matrix right-hand side (b, 2b): columns x and 2x
             d0 = max([abs(X[i][0] - x[i]) for i in range(n)] + [0.0]); d1 = max([abs(X[i][1] - 2 * x[i]) for i in range(n)] + [0.0])
-            if max(d0, d1) > 10 * tol: prob(ix, 'qtz-matrix-rhs', 'matrix solve differs from vector solve by %g' % max(d0, d1))
+            if max(d0, d1) > 10 * tol * xs: prob(ix, 'qtz-matrix-rhs', 'matrix solve differs from vector solve by %g' % max(d0, d1))
             est = float.fromhex(head[1])
             if sv and rank >= 1:
                 true = sv[1][rank - 1] / sv[1][0]
                 if not (true / 20 <= est <= true * 20):
                     # (regression: before fix 1ce33455 the estimate stayed 0 at numerical rank 1; it must be 1 there)
                     prob(ix, 'qtz-rcond-estimate', 'getRCondEstimate %g vs sigma_r/sigma_1 %g (rank %d)' % (est, true, rank))
-            if len(secs) > 2:
+            if len(secs) > 2 and not kept_tiny:
                 inv = sec_mat(secs[2], cx); C.add('INV %d %s %s %s' % (dm, hexf(10 * tol), H(R(A)), H(R(inv))), ix, 'qtz-inverse', tol=10 * tol)
         elif kind == 'LU':
             n = me['n']; A = unflat(me['A'], n, n, cx); b = unvflat(me['b'], n, cx)
